@@ -1,4 +1,5 @@
 import Spdc.Real.Jsa
+import Spdc.Real.ComposeLemmas
 /-!
 # C06 — relabelling signal and idler leaves the coincidence joint spectrum unchanged
 
@@ -139,5 +140,119 @@ example : exA.Good := by
   · rw [denom1_toC]; intro h; have := congrArg Complex.re h; simp [exA, Cx.toC] at this
     norm_num at this
   · rw [denom2_toC]; intro h; have := congrArg Complex.re h; simp [exA, Cx.toC] at this
+
+/-! ## composed model
+
+The theorems above are about the phase-matching layer with its inputs (indices, external angles,
+walk-off, `k_eff`, apodisation) arbitrary.  The theorems below lift them to the COMPOSED model
+(`Spdc/Model/Compose.lean`), whose only inputs are the primitive setup `Compose.Setup` (crystal id,
+angles, wavelengths, waists, …) and which computes those layer inputs itself through the crystal,
+index, beam and poling layers.  Assumptions of the lift: the idler is given explicitly
+(`idlerAuto = false`; with `"auto"` the exchanged setup would recompute a different idler), and the
+guard `Good` at the Simpson nodes as before. -/
+
+/-- composed model, T2 lifted: the coefficient inputs computed from the primitives commute with the
+exchange — the joint-spectrum view of the exchanged primitive setup is the exchanged view (same
+principal indices, directions, external angles, waist positions; pump walk-off and `k_eff` untouched;
+`PMType::inverse` hands each beam the other's polarization). -/
+theorem compose_coeffs_swap (S : Compose.Setup ℝ) (h : S.idlerAuto = false) :
+    Compose.jsetup S.swap = (Compose.jsetup S).map JSetup.swap :=
+  Compose.jsetup_swap S h
+
+/-- composed model: the integrand of the exchanged primitive setup at exchanged frequencies -/
+theorem compose_pmIntegrand_swap (S : Compose.Setup ℝ) (h : S.idlerAuto = false) (ωs ωi z : ℝ)
+    (g : ∀ J, Compose.jsetup S = .ok J → Good J.toSetup ωs ωi z) :
+    Compose.pmIntegrand S.swap ωi ωs z = Compose.pmIntegrand S ωs ωi z := by
+  unfold Compose.pmIntegrand
+  rw [Compose.jsetup_swap S h]
+  cases hJ : Compose.jsetup S with
+  | ok J =>
+    simp only [Outcome.map]
+    congr 1
+    exact pmIntegrand_swap J.toSetup ωs ωi z (g J hJ)
+  | err e => rfl
+  | panic e => rfl
+
+/-- composed model, T3/T4 lifted: `jsa_raw`, `jsa` (magnitude and phase) and `jsi` computed from the
+primitive inputs through all layers are invariant under the exchange of the primitive signal and idler
+records (wavelength, angles, waist, waist position; PM type inverted) together with the frequency
+arguments — for every crystal, every Simpson division count (a panic for `divs < 5` is the same on
+both sides). -/
+theorem compose_jsa_swap (S : Compose.Setup ℝ) (h : S.idlerAuto = false) (divs : Nat) (ωs ωi : ℝ)
+    (g : ∀ J r, Compose.jsetup S = .ok J → Compose.simpsonRule divs = .ok r →
+      ∀ p ∈ r.1, Good J.toSetup ωs ωi p.1) :
+    Compose.jsaRaw S.swap divs ωi ωs = Compose.jsaRaw S divs ωs ωi
+      ∧ Compose.jsa S.swap divs ωi ωs = Compose.jsa S divs ωs ωi
+      ∧ Compose.jsi S.swap divs ωi ωs = Compose.jsi S divs ωs ωi := by
+  refine ⟨?_, ?_, ?_⟩
+  · unfold Compose.jsaRaw
+    rw [Compose.offSupport_swap, Compose.jsetup_swap S h]
+    split
+    · rfl
+    · cases hJ : Compose.jsetup S with
+      | ok J =>
+        cases hr : (Compose.simpsonRule divs : Outcome (List (ℝ × ℝ) × ℝ)) with
+        | ok r =>
+          simp only [Outcome.map, Outcome.bind]
+          congr 1
+          exact jsaRaw_swap J r.1 r.2 ωs ωi (g J r hJ hr)
+        | err e => simp only [Outcome.map, Outcome.bind]
+        | panic e => simp only [Outcome.map, Outcome.bind]
+      | err e => rfl
+      | panic e => rfl
+  · unfold Compose.jsa
+    rw [Compose.offSupport_swap, Compose.jsetup_swap S h]
+    split
+    · rfl
+    · cases hJ : Compose.jsetup S with
+      | ok J =>
+        cases hr : (Compose.simpsonRule divs : Outcome (List (ℝ × ℝ) × ℝ)) with
+        | ok r =>
+          simp only [Outcome.map, Outcome.bind]
+          congr 1
+          exact jsa_swap J r.1 r.2 ωs ωi (g J r hJ hr)
+        | err e => simp only [Outcome.map, Outcome.bind]
+        | panic e => simp only [Outcome.map, Outcome.bind]
+      | err e => rfl
+      | panic e => rfl
+  · unfold Compose.jsi
+    rw [Compose.offSupport_swap, Compose.jsetup_swap S h]
+    split
+    · rfl
+    · cases hJ : Compose.jsetup S with
+      | ok J =>
+        cases hr : (Compose.simpsonRule divs : Outcome (List (ℝ × ℝ) × ℝ)) with
+        | ok r =>
+          simp only [Outcome.map, Outcome.bind]
+          congr 1
+          exact jsi_swap J r.1 r.2 ωs ωi (g J r hJ hr)
+        | err e => simp only [Outcome.map, Outcome.bind]
+        | panic e => simp only [Outcome.map, Outcome.bind]
+      | err e => rfl
+      | panic e => rfl
+
+/-- composed model: the two transcriptions of the Simpson z-integral (generic `math::simpson` of the
+quadrature layer; the node list used by the joint-spectrum layer) give the same
+`phasematch_fiber_coupling` on the composed view -/
+theorem compose_pmCoinc_paths (S : Compose.Setup ℝ) (divs : Nat) (ωs ωi : ℝ)
+    (h1 : ¬ divs + divs % 2 < 2) (h2 : ¬ divs + divs % 2 - 2 < 4) :
+    Compose.pmCoinc S divs ωs ωi
+      = (Compose.jsetup S).bind fun J => pmCoincSimpson J.toSetup divs ωs ωi := by
+  unfold Compose.pmCoinc
+  congr 1
+  funext J
+  exact Compose.half_simpson_eq J.toSetup divs ωs ωi h1 h2
+
+/-- non-vacuity of the composed statements: a concrete primitive setup with an explicit idler whose
+exchange is a different setup -/
+def exS : Compose.Setup ℝ :=
+  { crystal := .KTP, cTheta := 1.5, cPhi := 0, L := 0.01, T := 293, counterProp := false,
+    pm := .t2_e_eo, lamP := 775e-9, wpx := 1e-4, wpy := 1e-4, bandwidth := 1e-9, power := 1,
+    threshold := 0.01, deff := 1e-12,
+    sig := ⟨1500e-9, 0.01, 0, 5e-5, 5e-5, -0.003⟩, idl := ⟨1603e-9, 0.011, 3, 6e-5, 6e-5, -0.002⟩,
+    idlerAuto := false, poling := .off }
+
+example : exS.idlerAuto = false ∧ exS.swap.pm = .t2_e_oe ∧ exS.swap.sig.wx = 6e-5
+    ∧ exS.swap.swap.pm = exS.pm := ⟨rfl, rfl, rfl, rfl⟩
 
 end Spdc.Props.C06
